@@ -471,6 +471,12 @@ fn commutation(rep: &mut Report) {
         probe(acc, "Affine2 * Mat3A = Mat3A::from(Affine2) * Mat3A", &R::H3A(a2 * Mat3A::from(b2)), &R::H3A(Mat3A::from(a2) * Mat3A::from(b2)), 64.0, &ctx);
         probe(acc, "Mat4 * Affine3A = Mat4 * Mat4::from(Affine3A)", &R::M4(Mat4::from(a) * b), &R::M4(Mat4::from(a) * Mat4::from(b)), 64.0, &ctx);
         probe(acc, "Affine3A * Mat4 = Mat4::from(Affine3A) * Mat4", &R::M4(a * Mat4::from(b)), &R::M4(Mat4::from(a) * Mat4::from(b)), 64.0, &ctx);
+        // composition spelled as an iterator product (by value and over references) converts like `*`
+        probe(acc, "Mat4::from([&a,&b,&b].product()) = Mat4::from(a)*Mat4::from(b)*Mat4::from(b)", &R::M4(Mat4::from([a, b, b].iter().product::<Affine3A>())), &R::M4(Mat4::from(a) * Mat4::from(b) * Mat4::from(b)), 128.0, &ctx);
+        probe(acc, "Mat3::from([&a2,&b2,&b2].product()) = Mat3::from(a2)*Mat3::from(b2)*Mat3::from(b2)", &R::H3(Mat3::from([a2, b2, b2].iter().product::<Affine2>())), &R::H3(Mat3::from(a2) * Mat3::from(b2) * Mat3::from(b2)), 128.0, &ctx);
+        probe(acc, "Mat3::from_quat([&q,&p,&p].product()) = from_quat(q)*from_quat(p)*from_quat(p)", &R::M3(Mat3::from_quat([q, p, p].iter().product::<Quat>())), &R::M3([Mat3::from_quat(q), Mat3::from_quat(p), Mat3::from_quat(p)].iter().product::<Mat3>()), 64.0, &ctx);
+        probe(acc, "Mat4::from_mat3([&A,&B,&B].product()) = product of from_mat3", &R::M4(Mat4::from_mat3([Mat3::from_quat(q), Mat3::from_quat(p), Mat3::from_quat(p)].iter().product::<Mat3>())), &R::M4([Mat4::from_quat(q), Mat4::from_quat(p), Mat4::from_quat(p)].iter().product::<Mat4>()), 64.0, &ctx);
+        probe(acc, "DMat4::from([&da,&db,&db].product()) = DMat4 product", &R::DM4(DMat4::from([a.as_daffine3(), b.as_daffine3(), b.as_daffine3()].iter().product::<DAffine3>())), &R::DM4(DMat4::from(a.as_daffine3()) * DMat4::from(b.as_daffine3()) * DMat4::from(b.as_daffine3())), 128.0, &ctx);
         // f64 counterparts commute with the casts
         probe(acc, "(a*b).as_daffine3 = a.as_daffine3*b.as_daffine3", &R::DA3((a * b).as_daffine3()), &R::DA3(a.as_daffine3() * b.as_daffine3()), 64.0, &ctx);
         probe(acc, "(q*p).as_dquat = q.as_dquat*p.as_dquat", &R::DQ((q * p).as_dquat()), &R::DQ(q.as_dquat() * p.as_dquat()), 32.0, &ctx);
